@@ -4114,6 +4114,16 @@ func checkGatewayWildcardsAndUpdate(tx WriteTxn, idx uint64, svc *structs.Servic
 				continue
 			}
 
+			// If the service was specified on its own for this gateway, that
+			// entry overrides the wildcard entry (same rule as updateGatewayNamespace).
+			existing, err := tx.First(tableGatewayServices, indexID, wildcardSvc.Gateway, structs.NewServiceName(svc.Name, &svc.EnterpriseMeta), wildcardSvc.Port)
+			if err != nil {
+				return fmt.Errorf("gateway service lookup failed: %s", err)
+			}
+			if gs, ok := existing.(*structs.GatewayService); ok && gs != nil && !gs.FromWildcard {
+				continue
+			}
+
 			// Copy the wildcard mapping and modify it
 			gatewaySvc := wildcardSvc.Clone()
 
